@@ -157,6 +157,7 @@ fn is_marker(r: &CIResult<Interval<f64>>) -> bool {
 #[kani::unwind(6)]
 #[kani::stub(ci_wilson, wilson_recorder)]
 fn c02_frontend_ci_true() {
+    loose_hints();
     let d: [bool; 4] = kani::any();
     let len: usize = kani::any();
     kani::assume(len <= 4);
@@ -179,6 +180,7 @@ fn c02_frontend_ci_true() {
 #[kani::unwind(6)]
 #[kani::stub(ci_wilson, wilson_recorder)]
 fn c02_frontend_ci_if() {
+    loose_hints();
     let d: [u8; 4] = kani::any();
     let len: usize = kani::any();
     kani::assume(len <= 4);
@@ -214,6 +216,8 @@ fn c02_frontend_ci_and_stats_ci() {
 #[kani::proof]
 #[kani::unwind(6)]
 fn c02_stats_counting() {
+    loose_hints();
+    kani::cover!(LOOSE_HINT.load(SeqCst) == 1, "inexact size hints");
     let n0: usize = kani::any();
     let k0: usize = kani::any();
     kani::assume(k0 <= n0 && n0 <= usize::MAX - 8);
